@@ -36,7 +36,7 @@ static void run_history(const std::vector<std::string>& lines, int fd) {
       else if (op == "optimal_value") { Coefficient nu, de; P->optimal_value(nu, de); num = L(nu); den = L(de); }
       else if (op == "evaluate") { Coefficient nu, de; Linear_Expression e = le(v, n); e -= v[0]; P->evaluate_objective_function(point(e, v[0]), nu, de); num = L(nu); den = L(de); }
       else if (op == "copy") { MIP_Problem* q = new MIP_Problem(*P); delete P; P = q; }
-      else if (op == "dumpload") { std::stringstream ss; P->ascii_dump(ss); std::string t1 = ss.str(); MIP_Problem* q = new MIP_Problem(); bool lo = q->ascii_load(ss); std::stringstream s2; q->ascii_dump(s2); rb = lo && s2.str() == t1; delete P; P = q;   // OK() of the loaded object is reported through the ok flag }
+      else if (op == "dumpload") { std::stringstream ss; P->ascii_dump(ss); std::string t1 = ss.str(); MIP_Problem* q = new MIP_Problem(); bool lo = q->ascii_load(ss); std::stringstream s2; q->ascii_dump(s2); rb = lo && s2.str() == t1; delete P; P = q; /* OK() of the loaded object is reported through the ok flag */ }
       else if (op == "clear") P->clear();
       else exc = "unknown-op";
     }
